@@ -722,3 +722,77 @@ impl Default for Context {
         }
     }
 }
+
+/// Doors for the verification harness (see `verif_hooks.rs`). Adapters only.
+#[cfg(feature = "verif")]
+impl Core {
+    pub(crate) fn verif_context(&self) -> Arc<Context> {
+        self.context.clone()
+    }
+
+    pub(crate) fn verif_make_codec<IO>(
+        context: &Arc<Context>,
+        protocol: tls_demultiplexer::Protocol,
+        io: IO,
+        id: log_utils::IdChain<u64>,
+    ) -> io::Result<Box<dyn HttpCodec>>
+    where
+        IO: 'static + AsyncRead + AsyncWrite + Unpin + Send + PeerAddr,
+    {
+        Self::make_tcp_http_codec(protocol, context.settings.clone(), io, id)
+    }
+
+    pub(crate) async fn verif_on_tunnel_request(
+        context: Arc<Context>,
+        protocol: tls_demultiplexer::Protocol,
+        codec: Box<dyn HttpCodec>,
+        server_name: String,
+        sni_auth_creds: Option<String>,
+        tunnel_id: log_utils::IdChain<u64>,
+    ) {
+        Self::on_tunnel_request(
+            context,
+            protocol,
+            codec,
+            server_name,
+            sni_auth_creds,
+            tunnel_id,
+        )
+        .await
+    }
+
+    pub(crate) async fn verif_on_new_tls_connection(
+        context: Arc<Context>,
+        acceptor: TlsAcceptor,
+        client_ip: std::net::IpAddr,
+        client_id: log_utils::IdChain<u64>,
+    ) -> Result<(), String> {
+        Self::on_new_tls_connection(context, acceptor, client_ip, client_id)
+            .await
+            .map_err(|(_, m)| m)
+    }
+
+    pub(crate) fn verif_evaluate_connection_rules(
+        context: &Arc<Context>,
+        client_ip: Option<std::net::IpAddr>,
+        client_random: Option<&[u8]>,
+    ) -> Result<(), String> {
+        Self::evaluate_connection_rules(
+            context,
+            client_ip,
+            client_random,
+            &log_utils::IdChain::empty(),
+        )
+    }
+
+    pub(crate) fn verif_tls_demux(context: &Arc<Context>) -> Arc<RwLock<TlsDemux>> {
+        context.tls_demux.clone()
+    }
+
+    pub(crate) fn verif_next_ids(context: &Arc<Context>) -> (u64, u64) {
+        (
+            context.next_client_id.fetch_add(1, Ordering::Relaxed),
+            context.next_tunnel_id.fetch_add(1, Ordering::Relaxed),
+        )
+    }
+}
